@@ -8,7 +8,7 @@ from .scopes import consts, family
 OPS = '{"open", "openf", "openm", "close", "sleep", "yield", "dline", "probe", "cancel"}'
 FAMILY = family("C06", [
     ModelCfg("c06-n1o4e0", consts(1, 4, 0, '{"open", "openf", "openm", "close", "sleep", "dline", "probe"}',
-                                  deadlines="{0, 1, 2, 99}", delays="{1, 2}", env="{}"),
+                                  deadlines="{0, 1, 2, 99}", delays="{1, 2}", env="{}", via_setter="{0, 1}"),
              emit=True, check=False, max_scenarios=6000),
     ModelCfg("c06-n1o5e1", consts(1, 5, 1, OPS, deadlines="{0, 1, 2, 3, 99}", delays="{1, 2}"),
              tiers=("quick",), check=False, simulate=2000),
